@@ -17,7 +17,7 @@ import weakref
 from botocore.exceptions import IncompleteReadError, ReadTimeoutError
 
 from common import rng_for
-from fakes3 import FakeS3, FaultPlan, InjectedFault, InjectedInterrupt, retryable_error
+from fakes3 import FakeS3, FaultPlan, InjectedBase, InjectedFault, InjectedInterrupt, retryable_error
 from sched import Deadlock, Livelock, SchedAbort, Scheduler
 from shim import Installed
 
@@ -48,7 +48,7 @@ class SrcStream:
         k = self.nreads
         self.nreads += 1
         if self.fault_at is not None and k == self.fault_at:
-            exc = (InjectedInterrupt if getattr(self, 'fault_kind', 'plain') == 'interrupt' else InjectedFault)('src-read-%d' % self.ti)
+            exc = {'interrupt': InjectedInterrupt, 'base': InjectedBase}.get(getattr(self, 'fault_kind', 'plain'), InjectedFault)('src-read-%d' % self.ti)
             self.env.fired(self.ti, 'src-read', exc)
             raise exc
         rem = len(self.data) - self.pos
@@ -413,6 +413,8 @@ def make_local_fault(kind, tag, base=None):
     import socket
     if kind == 'interrupt':
         e = InjectedInterrupt(tag)
+    elif kind == 'base':
+        e = InjectedBase(tag)
     elif kind == 'brokenpipe':
         e = BrokenPipeError(32, 'injected:%s' % tag)
     elif kind == 'timeout':
@@ -521,7 +523,8 @@ def gen_scenario(rng, focus=None):
         cancel = {'kind': 'interrupt-exit', 'how': rng.choice(['with', 'with', 'shutdown']), 'nth_wait': rng.choice([0, 0, 1])}
     sc = {'cfg': cfg, 'transfers': transfers, 'faults': faults, 'cancel': cancel,
           'mode': rng.choice(['uniform', 'sticky', 'sticky', 'pct', 'stall', 'stall']), 'sched_seed': rng.randrange(1 << 30),
-          'fresh_after': rng.random() < 0.3, 'fresh_nonseekable': rng.random() < 0.5}
+          'fresh_after': rng.random() < 0.3, 'fresh_nonseekable': rng.random() < 0.5,
+          'mark_failed_after_done': rng.random() < 0.2}
     # shutdown() without cancel while transfers are still in flight: the barrier itself
     if cancel is None and rng.random() < 0.25:
         sc['early_shutdown'] = rng.choice([0, 0, 2, 5, 10, 25, 40])
@@ -552,8 +555,10 @@ def strip_chains(sc):
 
 
 def normalize_chain_cfg(cfg):
+    # room for every transfer of a scenario and every chained one at once: a callback that runs in the only
+    # submission thread and blocks on a full submission queue is the application's own cycle
     for k in ('max_submission_queue_size', 'max_request_queue_size', 'max_io_queue_size'):
-        cfg[k] = max(cfg[k], 4)
+        cfg[k] = max(cfg[k], 16)
 
 
 def make_serial(sc, rng):
@@ -581,7 +586,7 @@ def make_serial(sc, rng):
         else:
             sc['faults'].append({'site': 'dest-write', 'transfer': rng.randrange(nt), 'nth': rng.randrange(0, 4), 'exc_kind': 'plain'})
     for f in sc['faults']:
-        if rng.random() < 0.7:
+        if rng.random() < 0.7 and f.get('op') != 'abort_multipart_upload':
             if f['site'] == 'body':
                 f['kind'] = 'interrupt'
             else:
@@ -726,6 +731,8 @@ def _run_inner2(sc, sch, sh, env, run):
     for f in req_faults:
         if f.get('exc_kind') == 'interrupt':
             f['exc'] = (lambda f=f: InjectedInterrupt('req-%s-%d-%s' % (f['op'], f['nth'], f['when'])))
+        elif f.get('exc_kind') == 'base':
+            f['exc'] = (lambda f=f: InjectedBase('req-%s-%d-%s' % (f['op'], f['nth'], f['when'])))
         elif f.get('exc_kind') == 'conn':
             # a connection-level error: retryable by the library only where the property says so
             # (the GetObject call of a download attempt), an ordinary failure everywhere else
@@ -764,6 +771,8 @@ def _run_inner2(sc, sch, sh, env, run):
                     return sizes + [('fault', lambda: retryable_error(['incomplete', 'timeout', 'conn'][n % 3], ('get', n)))]
                 if f['kind'] == 'interrupt':
                     return sizes + [('fault', lambda: InjectedInterrupt('body-%d' % n))]
+                if f['kind'] == 'base':
+                    return sizes + [('fault', lambda: InjectedBase('body-%d' % n))]
                 return sizes + [('fault', lambda: InjectedFault('body-%d' % n))]
         return None
     fake.get_script_fn = script_fn
@@ -850,13 +859,21 @@ def _run_inner2(sc, sch, sh, env, run):
             more.pop(k)
         return tm.delete('b', 'k%d' % ti, extra_args=more, subscribers=sp['subs'])
 
+    def shutdown_manager(tm, **kw):
+        # a transfer whose stored failure is an (injected) KeyboardInterrupt makes wait() treat it as the user's
+        # Ctrl-C and re-raise it after the executors were shut down: that is shutdown()'s documented reaction
+        try:
+            tm.shutdown(**kw)
+        except (InjectedInterrupt, InjectedBase) as e:
+            env.log('shutdown-reraised-a-transfers-interrupt', what=repr(e))
+
     def collect(ti, fut):
         try:
             r = fut.result()
             run.outcomes[ti] = ('ok', r)
         except SchedAbort:
             raise
-        except InjectedInterrupt as e:
+        except (InjectedInterrupt, InjectedBase) as e:
             run.outcomes[ti] = ('raise', e)
         except KeyboardInterrupt as e:
             run.outcomes[ti] = ('interrupt', e)
@@ -899,7 +916,7 @@ def _run_inner2(sc, sch, sh, env, run):
                         if cancel['exc'] == 'empty-msg':
                             raise UserExc.__new__(UserExc)
                         raise UserExc('with-block')
-                except (UserExc, KeyboardInterrupt):
+                except (UserExc, KeyboardInterrupt, InjectedBase):
                     pass
                 env.shutdown_returned_at = env.log('shutdown-returned')
                 for ti, f in futs.items():
@@ -921,7 +938,7 @@ def _run_inner2(sc, sch, sh, env, run):
                         sh.interrupt_plan[('main', sh.wait_counts.get('main', 0) + cancel['nth_wait'])] = KeyboardInterrupt()
                         env.log('shutdown-call', cancel=False)
                         tm.shutdown()
-                except KeyboardInterrupt:
+                except (KeyboardInterrupt, InjectedBase):
                     env.log('interrupt-propagated')
                 sh.interrupt_plan.clear()
                 env.shutdown_returned_at = env.log('shutdown-returned')
@@ -949,7 +966,7 @@ def _run_inner2(sc, sch, sh, env, run):
                                 all(f.done() for f in futs.values()), 'shutdown-delay')
                 env.log('shutdown-call', cancel=True, msg=cancel['msg'],
                         statuses=[f._coordinator.status for f in futs.values()])
-                tm.shutdown(cancel=True, cancel_msg=cancel['msg'])
+                shutdown_manager(tm, cancel=True, cancel_msg=cancel['msg'])
                 env.shutdown_returned_at = env.log('shutdown-returned')
                 for ti, f in futs.items():
                     collect(ti, f)
@@ -959,7 +976,7 @@ def _run_inner2(sc, sch, sh, env, run):
                 sch.block_until(lambda: sch.steps >= n0 + sc['early_shutdown'] or
                                 all(f.done() for f in futs.values()), 'shutdown-delay')
                 env.log('shutdown-call', cancel=False, statuses=[f._coordinator.status for f in futs.values()])
-                tm.shutdown()
+                shutdown_manager(tm)
                 env.shutdown_returned_at = env.log('shutdown-returned')
                 for ti, f in futs.items():
                     collect(ti, f)
@@ -988,9 +1005,16 @@ def _run_inner2(sc, sch, sh, env, run):
                     raise
                 except BaseException as e:   # noqa
                     run.fresh = ('raise', e)
+            if sc.get('mark_failed_after_done'):
+                # the documented use of TransferFuture.set_exception: the caller flags a finished transfer as failed
+                # because a step of its own, after the transfer, failed
+                for ti, f in futs.items():
+                    if f.done():
+                        env.log('user-set-exception-after-done', ti=ti)
+                        f.set_exception(UserExc('set-by-user-after-done-%d' % ti))
             sh.interrupt_plan.clear()     # a planned Ctrl-C that never found its wait must not land in this shutdown
             env.log('shutdown-call', cancel=False)
-            tm.shutdown()
+            shutdown_manager(tm)
             env.shutdown_returned_at = env.log('shutdown-returned')
         except SchedAbort:
             raise
